@@ -177,6 +177,12 @@ func (x *leafrefLex) LexDot(c rune) (int, xpath.TokVal) {
 	}
 }
 
+// A path-arg has neither a wildcard node-identifier nor a multiply operator.
+func (x *leafrefLex) LexAsterisk() (int, xpath.TokVal) {
+	x.SetError(fmt.Errorf("'*' is not a valid token."))
+	return xutils.ERR, nil
+}
+
 func (x *leafrefLex) LexNum(c rune) (int, xpath.TokVal) {
 	x.SetError(fmt.Errorf("Numbers are not valid tokens."))
 	return xutils.ERR, nil
